@@ -41,3 +41,112 @@ def returned_exprs(fn_node) -> List[ast.expr]:
 def params_of(fn_node) -> List[str]:
     a = fn_node.args
     return [x.arg for x in a.posonlyargs + a.args + a.kwonlyargs]
+
+
+def loop_carried_reads(loop) -> List[tuple]:
+    """Reads, inside the body of a for loop, of a local that the body also assigns, on a path of one iteration that has
+    not assigned it yet: the value then comes from an earlier iteration (or from before the loop).  Returns
+    [(name, node)].  Definite assignment over if/else, try, with, nested loops (a nested loop may run zero times);
+    return / raise / continue / break end a path."""
+    assigned = set()
+    for n in ast.walk(ast.Module(body=loop.body, type_ignores=[])):
+        if isinstance(n, ast.Name) and isinstance(n.ctx, ast.Store):
+            assigned.add(n.id)
+        elif isinstance(n, (ast.FunctionDef, ast.AsyncFunctionDef, ast.Lambda)):
+            pass
+    start = {n.id for n in ast.walk(loop.target) if isinstance(n, ast.Name)}
+    out = []
+
+    def reads(e, defined):
+        if e is None:
+            return
+        for n in ast.walk(e):
+            if isinstance(n, ast.Name) and isinstance(n.ctx, ast.Load) and n.id in assigned and n.id not in defined:
+                out.append((n.id, n))
+
+    def stores(t, defined):
+        for n in ast.walk(t):
+            if isinstance(n, ast.Name) and isinstance(n.ctx, ast.Store):
+                defined.add(n.id)
+            elif isinstance(n, (ast.Subscript, ast.Attribute)) and isinstance(n.ctx, ast.Store):
+                reads(n.value, defined)
+                if isinstance(n, ast.Subscript):
+                    reads(n.slice, defined)
+
+    def block(stmts, defined):
+        """-> the names defined when the block falls through, None when it never does"""
+        for s in stmts:
+            if isinstance(s, ast.Assign):
+                reads(s.value, defined)
+                for t in s.targets:
+                    stores(t, defined)
+            elif isinstance(s, ast.AnnAssign):
+                reads(s.value, defined)
+                if s.value is not None:
+                    stores(s.target, defined)
+            elif isinstance(s, ast.AugAssign):
+                reads(s.value, defined)
+                if isinstance(s.target, ast.Name):
+                    if s.target.id in assigned and s.target.id not in defined:
+                        out.append((s.target.id, s.target))
+                    defined.add(s.target.id)
+                else:
+                    reads(s.target.value, defined)
+            elif isinstance(s, ast.If):
+                reads(s.test, defined)
+                a = block(s.body, set(defined))
+                b = block(s.orelse, set(defined))
+                if a is None and b is None:
+                    return None
+                defined = a if b is None else b if a is None else (a & b)
+            elif isinstance(s, (ast.For, ast.AsyncFor, ast.While)):
+                reads(s.iter if not isinstance(s, ast.While) else s.test, defined)
+                inner = set(defined)
+                if not isinstance(s, ast.While):
+                    stores(s.target, inner)
+                block(s.body, inner)
+                block(s.orelse, set(defined))
+            elif isinstance(s, (ast.With, ast.AsyncWith)):
+                for it in s.items:
+                    reads(it.context_expr, defined)
+                    if it.optional_vars is not None:
+                        stores(it.optional_vars, defined)
+                r = block(s.body, defined)
+                if r is None:
+                    return None
+                defined = r
+            elif isinstance(s, ast.Try):
+                before = set(defined)
+                a = block(s.body, set(defined))
+                if a is not None:
+                    a = block(s.orelse, a)
+                outs = [a]
+                for h in s.handlers:
+                    d = set(before)
+                    if h.name:
+                        d.add(h.name)
+                    outs.append(block(h.body, d))
+                outs = [o for o in outs if o is not None]
+                if not outs:
+                    block(s.finalbody, set(before))
+                    return None
+                defined = set.intersection(*outs)
+                r = block(s.finalbody, defined)
+                if r is None:
+                    return None
+                defined = r
+            elif isinstance(s, (ast.Return, ast.Raise)):
+                reads(getattr(s, 'value', None) or getattr(s, 'exc', None), defined)
+                return None
+            elif isinstance(s, (ast.Continue, ast.Break)):
+                return None
+            elif isinstance(s, (ast.FunctionDef, ast.AsyncFunctionDef, ast.ClassDef)):
+                defined.add(s.name)
+            else:
+                for e in ast.iter_child_nodes(s):
+                    if isinstance(e, ast.expr):
+                        reads(e, defined)
+        return defined
+
+    block(loop.body, set(start))
+    return out
